@@ -760,10 +760,13 @@ pub fn stack(a: &Args) {
         };
         let client = StatsdClient::from_sink("", q);
         let me = tid();
+        let mut panicked = 0u64;
         take_hooks();
         for i in 0..n {
             if rng.random_range(0..8) == 0 {
-                let _ = client.flush();
+                if catch_unwind(AssertUnwindSafe(|| client.flush())).is_err() {
+                    panicked += 1;
+                }
             } else {
                 let len = rng.random_range(0..(cap + 6)).max(8).min(300);
                 let key = metric(run * 10_000 + i, len);
@@ -782,7 +785,9 @@ pub fn stack(a: &Args) {
             }
         }
         hk(Hk::DropBegin(me));
-        drop(client);
+        if catch_unwind(AssertUnwindSafe(move || drop(client))).is_err() {
+            panicked += 1;
+        }
         hk(Hk::DropEnd(me));
         // the worker drains, stops and releases the wrapped sink: wait for it (bounded)
         let t0 = Instant::now();
@@ -829,6 +834,10 @@ pub fn stack(a: &Args) {
             }
         }
         tq.ev(json!({"ev":"end","released":released,"exited":released}));
+        if panicked > 0 {
+            tw.ev(json!({"ev":"reset","cap":cap,"tlen":1,"term":"0a","kind":"stack-panic","run":run}));
+            tw.ev(json!({"ev":"panic","msg":format!("{} calls of the stack panicked: {}", panicked, last_panic())}));
+        }
         // ---- writer-level trace, in the order of the critical sections
         tw.ev(json!({"ev":"reset","cap":cap,"tlen":1,"term":"0a","kind":if udp {"stack-budp"} else {"stack-bspy"},"run":run}));
         let mut cur: std::collections::HashMap<u64, (String, String)> = Default::default();
